@@ -4,12 +4,16 @@ package main
 
 import (
 	"fmt"
+	"math"
 	"os"
 	"time"
 
 	"verif/checks/rtreemc"
 	"verif/mc/report"
 )
+
+// drainNames marks the regimes explored with the drain transition relation.
+var drainNames = map[string]bool{"drain(2,4)x13": true, "drain(2,4)x16": true, "drain(2,5)x16": true, "drain(3,6)x16": true}
 
 type regime struct {
 	name     string
@@ -18,7 +22,7 @@ type regime struct {
 	seeds    [][]int
 	depth    int
 	dups     []int
-	spread   int // 0 compact alphabet, 1 spread, 2 compact scaled by 0.1, 3 the 36-point grid
+	spread   int // 0 compact alphabet, 1 spread, 2 compact scaled by 0.1, 3 the 36-point grid, 4 / 5 compact scaled by 2^130 / 2^-34, 6 points only
 }
 
 func seedOrders(n int) [][]int {
@@ -67,7 +71,7 @@ func main() {
 		return
 	}
 	r := report.New("C11", tier, "model_checking")
-	r.Rule = "E2: breadth-first search over the real *Rtree: transitions Insert(o) (o absent, or present once for the two designated duplicate objects) and Delete(o) (every o, present or absent) on a deep clone; states deduplicated by a canonical serialisation of the whole node structure (entry order, levels, leaf flags, boxes, object ids, parent-link flags), height, size and the model multiset. Regime (i) from the empty tree to closure / depth bound; regime (ii) neighbourhoods of height-3 seed trees. Regime (iii): every operation sequence of length <= 7 (thorough 8) over Insert/Delete of 4 objects (one insertable twice) and SearchIntersect of 3 fixed boxes *as operations*, explored as a tree without merging states, each query compared with brute force at that point of the history (catches state the key cannot see: caches, aliasing). Oracle in every distinct state: Size, balance, Depth, exact envelopes, fan-out, SearchIntersect for 104 query boxes vs brute force. Non-trivial = states with height >= 2."
+	r.Rule = "E2: breadth-first search over the real *Rtree: transitions Insert(o) (o absent, or present once for the two designated duplicate objects) and Delete(o) (every o, present or absent) on a deep clone; states deduplicated by a canonical serialisation of the whole node structure (entry order, levels, leaf flags, boxes, object ids, parent-link flags), height, size and the model multiset. Regime (i) from the empty tree to closure / depth bound; regime (ii) neighbourhoods of height-3 seed trees. Drain regimes: from the height-3 seed trees every way of deleting all objects (Insert enabled only while at most one object is left), to closure. Regime (iii): every operation sequence of length <= 7 (thorough 8) over Insert/Delete of 4 objects (one insertable twice) and SearchIntersect of 3 fixed boxes *as operations*, explored as a tree without merging states, each query compared with brute force at that point of the history (catches state the key cannot see: caches, aliasing). Oracle in every distinct state: Size, balance, Depth, exact envelopes, fan-out, SearchIntersect for 104 query boxes vs brute force. Non-trivial = states with height >= 2."
 	r.Assumptions = []string{"object alphabet: 16 boxes/points on the {0..3}^2 grid (coincident, nested, degenerate, value-typed); longer histories and other coordinates are outside the bound"}
 	regs := []regime{
 		{"full(2,4)x7", 7, 2, 4, nil, 200, nil, 0},
@@ -75,11 +79,15 @@ func main() {
 		{"full(2,5)x7", 7, 2, 5, nil, 200, nil, 0},
 		{"full(3,6)x8", 8, 3, 6, nil, 14, []int{0}, 0},
 		{"scaled-full(2,4)x6", 6, 2, 4, nil, 200, []int{0}, 2},
+		{"scaled(2^130)-full(2,4)x6", 6, 2, 4, nil, 200, []int{0}, 4},
+		{"scaled(2^-34)-full(2,4)x6", 6, 2, 4, nil, 200, []int{0}, 5},
+		{"points-full(2,4)x7", 7, 2, 4, nil, 200, nil, 6},
 		{"seeds(2,4)x13", 13, 2, 4, seedOrders(13), 5, nil, 0},
 		{"spread-seeds(2,4)x13", 13, 2, 4, seedOrders(13), 4, nil, 1},
 		{"spread-full(2,4)x6", 6, 2, 4, nil, 200, nil, 1},
 		{"grid-seeds(2,4)x36", 36, 2, 4, rtreemc.GridSeeds(), 2, nil, 3},
 		{"grid-seeds(2,5)x36", 36, 2, 5, rtreemc.GridSeeds(), 1, nil, 3},
+		{"drain(2,4)x13", 13, 2, 4, seedOrders(13), 16, nil, 0},
 	}
 	if tier == "thorough" {
 		regs = []regime{
@@ -87,6 +95,10 @@ func main() {
 			{"full(2,4)x7+dup5", 7, 2, 4, nil, 80, []int{5}, 0},
 			{"full(2,5)x8", 8, 2, 5, nil, 80, nil, 0},
 			{"scaled-full(2,4)x7", 7, 2, 4, nil, 200, nil, 2},
+			{"scaled(2^130)-full(2,4)x7", 7, 2, 4, nil, 200, nil, 4},
+			{"scaled(2^-34)-full(2,4)x7", 7, 2, 4, nil, 200, nil, 5},
+			{"points-full(2,4)x7", 7, 2, 4, nil, 200, []int{0}, 6},
+			{"points-full(2,5)x8", 8, 2, 5, nil, 200, nil, 6},
 			{"seeds(2,4)x13", 13, 2, 4, seedOrders(13), 5, nil, 0},
 			{"spread-seeds(2,4)x13", 13, 2, 4, seedOrders(13), 6, nil, 1},
 			{"spread-full(2,4)x7", 7, 2, 4, nil, 60, []int{0}, 1},
@@ -96,6 +108,10 @@ func main() {
 			{"grid-seeds(2,4)x36", 36, 2, 4, rtreemc.GridSeeds(), 3, nil, 3},
 			{"grid-seeds(2,5)x36", 36, 2, 5, rtreemc.GridSeeds(), 3, nil, 3},
 			{"grid-seeds(3,6)x36", 36, 3, 6, rtreemc.GridSeeds(), 2, nil, 3},
+			{"drain(2,4)x13", 13, 2, 4, seedOrders(13), 16, nil, 0},
+			{"drain(2,4)x16", 16, 2, 4, seedOrders(16), 19, nil, 0},
+			{"drain(2,5)x16", 16, 2, 5, seedOrders(16), 19, nil, 0},
+			{"drain(3,6)x16", 16, 3, 6, seedOrders(16), 19, nil, 0},
 			{"full(4,8)x9", 9, 4, 8, nil, 12, []int{0}, 0},
 			{"full(3,6)x8", 8, 3, 6, nil, 20, []int{0}, 0},
 			{"full(3,6)x9", 9, 3, 6, nil, 15, []int{0}, 0},
@@ -116,8 +132,14 @@ func main() {
 			u = rtreemc.NewScaledUniverse(g.nobj, g.min, g.max, g.dups...)
 		} else if g.spread == 3 {
 			u = rtreemc.NewGridUniverse(g.min, g.max)
+		} else if g.spread == 6 {
+			u = rtreemc.NewPointsUniverse(g.nobj, g.min, g.max, g.dups...)
+		} else if g.spread == 4 {
+			u = rtreemc.NewScaledUniverseBy(math.Ldexp(1, 130), g.nobj, g.min, g.max, g.dups...)
+		} else if g.spread == 5 {
+			u = rtreemc.NewScaledUniverseBy(math.Ldexp(1, -34), g.nobj, g.min, g.max, g.dups...)
 		}
-		e := &rtreemc.Explorer{U: u, R: r, Seeds: g.seeds, CheckState: rtreemc.CheckC11}
+		e := &rtreemc.Explorer{U: u, R: r, Seeds: g.seeds, CheckState: rtreemc.CheckC11, Drain: drainNames[g.name]}
 		t0 := time.Now()
 		st := e.Run(g.depth)
 		r.AddStates(st.States)
